@@ -310,7 +310,44 @@ u.extract(M, 'fn cast_into_memory', key='opt_to_opt_nil',
         memory is Some ==> frame(*old(builder), *final(builder), memory->0, tsize(*cast_to.0) as int),
 """)
 
+# ---- payload -> optional / error union (cast_payload_into_tagged_union, verbatim) --------------
+u.raw("""
+pub struct MetaTyData { pub _p: u8 }
+pub struct NiceFuncWriter { pub _p: u8 }
+// the recursion: ASSUMED to satisfy the frame contract this unit establishes arm by arm -- a
+// conversion into a destination writes only the bytes of the destination type there
+#[verifier::external_body]
+pub fn cast_into_memory(meta_tys: &mut MetaTyData, module: &mut Module, builder: &mut FunctionBuilder, func_writer: &mut NiceFuncWriter,
+                        ptr_ty: types::Type, val: Option<Value>, cast_from: Intern<Ty>, cast_to: Intern<Ty>, memory: Option<MemoryLoc>) -> (r: Option<Value>)
+    requires memory is Some ==> loc_wf(memory->0)
+    ensures memory is Some ==> frame(*old(builder), *final(builder), memory->0, tsize(*cast_to.0) as int)
+        && final(builder).slots == old(builder).slots
+{ unimplemented!() }
+""")
+NOASSERT = Rewrite('R6', r'assert!\((?:[^;]|;(?!\n))*?\);\n', '\n', count=None, why='`assert!(..)` dropped: a failed assertion aborts, it writes no memory (the frame contract is about stores)')
+u.extract(M, 'fn cast_payload_into_tagged_union', rewrites=[DYN, NOASSERT, EXPECT], contract="""
+    requires
+        // path condition (assumed): union_ty is a tagged optional / error union and
+        // to_payload_ty is one of its payload types
+        has_enum_layout(*union_ty.0), entry_ok(*union_ty.0),
+        exists|i: int| 0 <= i < payloads_of(*union_ty.0).len() && #[trigger] payloads_of(*union_ty.0)[i] == *to_payload_ty.0,
+        memory is Some ==> loc_wf(memory->0),
+    ensures
+        // the payload and the tag are written inside the union value, nothing else is
+        res.den@ is Addr,
+        frame_at(*old(builder), *final(builder), ptr_base(res), ptr_off(res), tsize(*union_ty.0) as int),
+        memory is Some ==> ptr_base(res) == loc_base(memory->0) && ptr_off(res) == loc_off(memory->0),
+        memory is None ==> ptr_off(res) == 0 && fresh_slot(*old(builder), *final(builder), ptr_base(res), tsize(*union_ty.0) as int),
+""", inserts=[('@body_start', 'after', """
+    proof {
+        let w = choose|i: int| 0 <= i < payloads_of(*union_ty.0).len() && #[trigger] payloads_of(*union_ty.0)[i] == *to_payload_ty.0;
+        assert(tsize(payloads_of(*union_ty.0)[w]) <= tenum(*union_ty.0).discriminant_offset);
+    }
+""")])
+
 MUTANTS = [
+    (M, '    memory.write_val(builder, one, enum_layout.discriminant_offset() as i32);', '    memory.write_val(builder, one, enum_layout.discriminant_offset() as i32 + 8);', 'violation'),
+    (M, '        to_payload_ty,\n        Some(memory),\n    );\n\n    let enum_layout = union_ty', '        union_ty,\n        Some(memory),\n    );\n\n    let enum_layout = union_ty', 'ok'),
     (M, '|builder, _func_writer| Some(create_nil_value(builder, ptr_ty, cast_to, memory)),', '|builder, _func_writer| Some(create_nil_value(builder, ptr_ty, cast_from, memory)),', 'violation'),
     (M, 'memory.write_val(builder, zero, opt_layout.discriminant_offset() as i32);', 'memory.write_val(builder, zero, opt_layout.discriminant_offset() as i32 + 1);', 'violation'),
     # the three C02 defects repaired by "fix:" commits, re-introduced
